@@ -69,3 +69,10 @@ CHECK = {
                     "values are compared bitwise for double (NaN and -0.0 must come back), by == for int and std::string",
                     "g++ 12 ASan+UBSan runtime; asserts live (no -DNDEBUG)"],
 }
+
+# additionally: a reduced workload under valgrind memcheck, for uninitialised-value
+# use and invalid accesses that the ASan build cannot see; oracle verdicts are not taken from this
+# flavour (valgrind emulates long double with 64 bits), only memcheck's own reports and aborts
+CHECK["thorough"]["flavours"] = list(CHECK.get("flavours", ["asan"])) + ["memcheck"]
+CHECK["quick"]["flavours"] = list(CHECK.get("flavours", ["asan"])) + ["memcheck"]
+CHECK["flavour_cases"] = {"memcheck": {"quick": 60, "thorough": 800}}
